@@ -501,7 +501,10 @@ func (r *transport) handleStaleWhileRevalidate(
 	ccReq internal.CCRequestDirectives,
 	strip iter.Seq[string],
 ) (*http.Response, error) {
-	req2 := req.Clone(req.Context())
+	// The revalidation outlives the caller's use of the response: it is bounded
+	// by the configured timeout, not by the caller's context.
+	req2 := req.Clone(context.WithoutCancel(req.Context()))
+	req2.Cancel = nil //nolint:staticcheck // deprecated, but still honoured by net/http
 	req2 = withConditionalHeaders(req2, stored.Data.Header)
 	validates := validatesStored(req2, stored.Data.Header)
 	identity := identityOf(stored)
